@@ -516,6 +516,9 @@ def run(ctx):
     P = 'C17'
     partial_emitters(ctx, P)
     running_offset_emitters(ctx, P)
+    # re-serialised packets get a header derived from the bytes that follow (shared with C05)
+    from rules import c05
+    c05.header_derivation(ctx, P)
     s17_1(ctx, P)
     s17_2(ctx, P)
     s17_3(ctx, P)
